@@ -20,7 +20,7 @@ P = {
          "Absence of panics is only shown for the generated inputs (<= 256 bytes / <= 64 fragments); hang detection is a watchdog, not a termination proof; wrap_columns widths capped at 10^4 (output size)."),
  "C05": ("differential testing of two code paths (upstream cfg(fuzzing) entry points: shortcut vs general path) plus a width-sweep validity check",
          "Exploration: wrap_single_line vs wrap_single_line_slow_path and fill vs fill_slow_path must agree on every generated (line, options, prior-line) case, widths concentrated between display width and byte length; and a paragraph that fits yields exactly indent+trimmed paragraph at every width of a sweep.",
-         "Needs the existing upstream guard --cfg fuzzing (no source hook added). 'Every splitter' is read as the built-in non-inserting splitters for the fits-unchanged half (see DESIGN C05 note). Cases matching the open known finding KF-C05-1 (an escape sequence containing a fragment boundary) are excluded before the assertion and counted in excluded_known; see known_findings.json."),
+         "Needs the existing upstream guard --cfg fuzzing (no source hook added). 'Every splitter' is read as the built-in non-inserting splitters for the fits-unchanged half (see DESIGN C05 note). Cases matching the open known finding KF-C05-1 (an escape sequence containing a fragment boundary) are excluded before the assertion and counted in excluded_known; likewise, in the differential half, cases matching KF-C05-2 (optimal-fit with a hyphen-inserting custom splitter and an inserted hyphen wider than the fragment after it: the regime C03 excludes); see known_findings.json."),
  "C06": ("property-based testing: arbitrary finite f64 fragments/line widths/usize penalties, word-shaped fragments through the WrapAlgorithm::wrap dispatcher, and generated call histories (several calls on one thread, some ending in Err) against a partition validity predicate using pointer identity of the returned slices",
          "Exploration: lines returned by both algorithms (free functions and, for word-shaped fragments, WrapAlgorithm::{FirstFit,OptimalFit}.wrap over Words) must be non-empty contiguous sub-slices whose start pointers and lengths tile the input exactly, in order; empty input gives one empty line; every call of a generated 2..4-call history is judged.",
          "Err(OverflowError) results are counted, not judged. Trusts proptest."),
@@ -112,7 +112,7 @@ def main():
              "kind_free_text": "cargo-fuzz crate with one libFuzzer target (fuzz_targets/prop.rs); TW_FUZZ_PROPERTY selects the property, bytes are decoded by the harness's own decoders into the same case structs and judged by the same oracles; used by the thorough tier only (8 jobs, fixed -runs, -seed derived from VERIF_SEED); a failure is re-judged in the plain harness before it is reported"},
         ],
         "checks": checks,
-        "notes": "Exit 0 = held on everything explored (KNOWN-FINDING lines possible); exit 1 + VIOLATION line; exit 2 = inconclusive (build failure, unhealthy generator, watchdog). Repairs of genuine defects are the five 'fix:' commits in /repo, recorded in /verif/known_findings.json together with three open findings of one root cause (KF-C05-1, KF-C13-1, KF-C14-1) and one of another (KF-C14-2). Sensitivity evidence: MUTATION.md, mutants/, seeded/.",
+        "notes": "Exit 0 = held on everything explored (KNOWN-FINDING lines possible); exit 1 + VIOLATION line; exit 2 = inconclusive (build failure, unhealthy generator, watchdog). Repairs of genuine defects are the five 'fix:' commits in /repo, recorded in /verif/known_findings.json together with three open findings of one root cause (KF-C05-1, KF-C13-1, KF-C14-1) and two of other root causes (KF-C14-2, KF-C05-2). Sensitivity evidence: MUTATION.md, mutants/, seeded/.",
     }
     if na:
         m["not_applicable"] = na
